@@ -44,7 +44,7 @@ ASSUMPTIONS = [
 ]
 OUTSIDE = ["signals during training / population internals (stubs here)", "real signal delivery and real pickling", "interruptions inside C code"]
 
-PARALLEL_UNITS = False
+PARALLEL_UNITS = True
 MODS = c01.MODS
 TRACED = {"consume_sample", "yield_sample", "insert_live_point", "increment"}
 
@@ -250,6 +250,6 @@ def units(tier):
     sizes = [(1, 1), (2, 1)] if tier == "quick" else [(1, 2), (2, 1), (2, 2), (3, 1), (3, 2)]
     for (N, K) in sizes:
         us.append(Unit(f"signal[N={N},K={K}]", make_signal(N, K), MODS, opts, expect_cover=["end", "interrupted", "uninterrupted", "at:consume_sample", "at:insert_live_point", "at:increment", "at:yield_sample"],
-                       mutants=["lost"] if (N, K) == (2, 1) else [], twin_runs=40, setup=c01.setup, extra_patches=c01.EXTRA, witness_every=25, nproc=None))
+                       mutants=["lost"] if (N, K) == (2, 1) else [], twin_runs=40, setup=c01.setup, extra_patches=c01.EXTRA, witness_every=25, nproc=None, heavy=True))
     us.append(Unit("ins_refuses_mid_iteration_checkpoint", make_ins_refusal(), [], dict(), expect_cover=["end"], twin_runs=1, nproc=1))
     return us
